@@ -339,6 +339,11 @@ func (s *Sim) Start(i int, op *Op) *Op {
 	if op.CtxKind == "" {
 		op.CtxKind = "bg"
 	}
+	if op.CtxKind == "expired" {
+		// the caller's context has already ended when the call is made
+		op.CancelT = s.Now()
+		op.cancel()
+	}
 	s.ops = append(s.ops, op)
 	t.busy = op
 	s.Logf("op%d t%d %s(%s) ctx=%s", op.ID, i, op.Name, op.Args, op.ctxString())
